@@ -24,7 +24,7 @@ P = {
  "C11": ("Full statement proved: lossless split with S on the first fragment only, PID 0, picture id forms and +1 mod 2^15 per frame from 0; every RFC 7741 descriptor decodes to its fields for any receiver state; every strict prefix of a descriptor is rejected.", ""),
  "C12": ("Full statement proved: flexible and non-flexible losslessness with B/E/P, picture id step, scalability structure with the frame header's width/height on key frames; C12_bits (bit reader = bit range), C12_header (bitstream syntax -> parser result, profiles 0-3, all colour configurations, sizes 1-65535), C12_decode / C12_truncated for the payload descriptor, totality and reuse.", "Frames with show_existing_frame have no frame type; 65536-pixel sizes wrap in the 16-bit fields (stated bound)."),
  "C13": ("Proved: C13_lossless and C13_lossless_unsized_last (every OBU sequence - any types incl. sequence headers, temporal delimiters, tile lists; any extension headers; last size field present or omitted - and every MTU 2..2^21: the payloader output is the wire image of a well-chained sequence of structured aggregation packets of at most MTU bytes (W = element count or 0 with all elements length-prefixed, no empty element, Z = previous Y, first Z = 0, last Y = 0) whose glued elements are exactly the transmitted OBUs with the size flag cleared, and AV1Depacketizer from any state returns them with size fields, temporal delimiters and tile lists removed); C13_depack_sem (decoder = aggregation-header semantics for any well-chained packet sequence: Z/Y fragments mixed with complete elements, W = 0..3); LEB128 inverse below 2^56 and read bounds; OBU header inverse both ways (2^16 enumeration lifted by forallb_forall). C13_legacy_sem / C13_lossless_legacy: the deprecated AV1Packet + frame assembler path returns exactly the glued elements for any well-chained packet sequence, hence the transmitted OBUs for payloader output (its 8-bit element index, D22, was found while proving this and repaired in /repo). C13_rule_layers / C13_rule_layers_unsized_last: the output is the concatenation, group by group, of self-contained packet runs (first Z = 0, last Y = 0) carrying exactly the group's OBUs, where the groups are cut at every temporal delimiter, sequence header and layer-id change; inside a group all extension headers carry the same temporal and spatial id, and a sequence header / temporal delimiter is the first OBU of its group. The full statement is proved.", ""),
- "C14": ("Proved: all accessor theorems (arithmetic, whole domains), parser totality, C14_parse_forms (every well-formed single / aggregation / FU / PACI payload with and without DONL from the independent RFC 7798 encoder decodes to its fields; TSCI), C14_parse_truncated (every prefix that cuts into the minimal structure of its form is refused with an error), FU / single / aggregation shape, C14_lossless_partial (whole Payload call, AddDONL off, no unit of MTU-1 bytes), C14_donl_aggregation_is_rfc + C14_lossless_donl_partial (AddDONL on, units that need no fragmentation: the output IS the RFC 7798 encoding with DONL/DOND and comes back in order). Two known findings pinned by upstream tests: KF-C14-lone-fu, KF-C14-donl-every-fu, each with a _refuted witness.", ""),
+ "C14": ("Proved: all accessor theorems (arithmetic, whole domains), parser totality, C14_parse_forms (every well-formed single / aggregation / FU / PACI payload with and without DONL from the independent RFC 7798 encoder decodes to its fields; TSCI), C14_parse_truncated (every prefix that cuts into the minimal structure of its form is refused with an error), FU / single / aggregation shape, C14_lossless_partial (whole Payload call, AddDONL off, every sequence of valid units of any length, MTU 4..65535 - units of MTU-1 bytes included since repair D12), C14_donl_aggregation_is_rfc + C14_lossless_donl_partial (AddDONL on, units that are not fragmented: the output IS the RFC 7798 encoding with DONL/DOND and comes back in order). One known finding pinned by an upstream test: KF-C14-donl-every-fu (DONL in every FU), with a _refuted witness.", ""),
  "C15": ("Full statement proved: after an arbitrary history (any payloads, any loss, garbage) a complete H264 frame / AV1 payloader output decodes as on a fresh receiver (history universally quantified).", ""),
  "C16": ("Full statement proved: G711/G722 split (concatenation, all but the last fragment exactly MTU bytes), Opus pass-through as an owned copy, OpusPacket accept/reject, partition head/tail.", ""),
  "C17": ("Full statement proved for the five codecs: exact layouts on the in-range domains, errors outside, decode of every sufficient input for every previous receiver value, short input rejected, never Panic, round trip.", ""),
@@ -50,7 +50,7 @@ def main():
             "kind_free_text": "Coq 8.16.1 development (coq/: Base, Model, Spec, Proofs, Properties, Extract), extracted OCaml model runner (runner/driver.ml + extracted model), Go differential harness with property oracles (harness/), Python orchestrator (check), mutation self-test (lib/selftest.py, seeded/)",
         }],
         "checks": [],
-        "notes": "Every check: (1) full make of the Coq development + Print Assumptions under every theorem of Properties/<id>.v + lint (no Admitted/admit/Axiom/Parameter/...); (2) harness rebuilt against /repo with -tags verif; (3) correspondence: corpus + generated cases run on the implementation and on the extracted model, observables compared line by line; (4) the property's own oracle on the implementation; (5) verdict per DESIGN.md section 5 and evidence. Thorough adds a clean rebuild + coqchk -o over all Properties modules (shared stamp), 50-200x the cases, and an in-Coq vm_compute re-evaluation of a 300-case sub-corpus. known_findings.json lists 3 open findings (C03, C14 x2; all pinned by upstream tests) and 24 'fixed:' records.",
+        "notes": "Every check: (1) full make of the Coq development + Print Assumptions under every theorem of Properties/<id>.v + lint (no Admitted/admit/Axiom/Parameter/...); (2) harness rebuilt against /repo with -tags verif; (3) correspondence: corpus + generated cases run on the implementation and on the extracted model, observables compared line by line; (4) the property's own oracle on the implementation; (5) verdict per DESIGN.md section 5 and evidence. Thorough adds a clean rebuild + coqchk -o over all Properties modules (shared stamp), 50-200x the cases, and an in-Coq vm_compute re-evaluation of a 300-case sub-corpus. known_findings.json lists 2 open findings (C03, C14; both pinned by upstream tests) and 25 'fixed:' records.",
         "not_applicable": [],
     }
     for pid in sorted(P):
